@@ -222,8 +222,30 @@ class Bicomplex(object):
         z02 = 0.5 * (z1 + 1j * z2) ** other
         return Bicomplex(z01 + z02, (z01 - z02) * 1j)
 
+    def _inverse(self):
+        scale = np.maximum(np.abs(self.z1), np.abs(self.z2))  # the squares must not overflow
+        z1, z2 = self.z1 / scale, self.z2 / scale
+        mod2 = z1 * z1 + z2 * z2
+        return Bicomplex(z1 / mod2 / scale, -z2 / mod2 / scale)
+
+    def _pow_integer(self, n):
+        """Integer power by repeated multiplication: unlike exp(n*log(z)) it keeps the tiny z2 parts."""
+        if n < 0:
+            return self._inverse()._pow_integer(-n)
+        out = Bicomplex(np.ones_like(self.z1), np.zeros_like(self.z2))
+        base = self
+        while n > 0:
+            if n & 1:
+                out = out * base
+            n >>= 1
+            if n > 0:
+                base = base * base
+        return out
+
     def __pow__(self, other):
         # TODO: Check correctness
+        if isinstance(other, (int, np.integer)) and not isinstance(other, (bool, np.bool_)):
+            return self._pow_integer(int(other))
         out = (self.log() * other).exp()
         non_invertible = np.abs(self.mod_c()) < 1e-15
         if non_invertible.any():
